@@ -6,6 +6,7 @@ pub mod gen;
 pub mod flt;
 pub mod fmt_table;
 pub mod fmtspec;
+pub mod mp;
 
 pub use big::Big;
 pub use layout::{IntK, INTS, L, NLAY};
@@ -14,5 +15,5 @@ pub use run::{Budget, Engine, Kf, Tier};
 
 /// Oracle self-tests, run at the start of every check.
 pub fn selftest() -> Result<u64, String> {
-    Ok(big::selftest()? + layout::selftest()? + flt::selftest()? + fmtspec::selftest()?)
+    Ok(big::selftest()? + layout::selftest()? + flt::selftest()? + fmtspec::selftest()? + mp::selftest()?)
 }
